@@ -20,6 +20,7 @@ for _i, _f in enumerate(("S1", "S2", "S3", "S4", "S5", "S6", "S7", "S8", "S9"), 
     reg(_f, getattr(streams, "rule_" + _f), 2)
 reg("S4p", streams.rule_S4p, 2)
 reg("S10", streams.rule_S10, 2)
+reg("S5z", streams.rule_S5z, 2)
 
 for _f in ("D1", "D2", "D3", "D4", "D1a", "D1r", "D3a", "D3r"):
     reg(_f, getattr(decoders, "rule_" + _f), 1)
@@ -158,7 +159,7 @@ PROPS = {
               "system_byte_order and destination (P4); every stream reads n*frame_size bytes with one common n, blocks trimmed to whole frames of that stream, pass-through uses "
               "buffer_sizes[0], stop conditions, channel-count check (P5); interleave / de-interleave idioms, end-padding, dtype table (P6); every source stream is "
               "rewound with an absolute seek before it is read, so frame 0 of the output is frame 0 of the source (R1)." + NOT + "numerical equality per frame; padding values."),
-    "C13": _p(["T1", "T2", "T3", "T4", "T5", "S9"],
+    "C13": _p(["T1", "T2", "T3", "T4", "T5", "S9", "S5z"],
               "Decides the termination/boundedness clauses visible in code shape: every `while` loop of the package carries a termination variant checked on every back-edge path of a "
               "hand-built CFG - COUNTER, BOUNDED-RAISE, LEN-CONSUME (with callee summaries), ITERATOR, VISITED-WALK, STREAM-PARSE (record consumption proven positive incl. the adapter's "
               "size>=1 guard), READ-UNTIL-EMPTY, ANCESTOR (T1); no `for` grows its own iterable (T2); every cycle of the resolved call graph is in a confirmed table with its side condition "
